@@ -1,11 +1,13 @@
 // C13 layer (1) targets for shape Tria (generator instantiated in c10_gen_tria.cpp)
 #include "common/c13_emul.hpp"
+#include <kernel/space/lagrange3/element.hpp>
 extern template mg::Loaded<mg::Tria> mg::gen_node<mg::Tria>(vf::Tape&, vf::Ctx&, const mg::GenOpts&, mg::GenInfo&);
 void c13_register_tria(std::vector<vf::Target>& tg)
 {
-  tg.push_back({"emul_tria", [](vf::Tape& t, vf::Ctx& c) { switch(t.pick({3, 2, 2, 1})) {
+  tg.push_back({"emul_tria", [](vf::Tape& t, vf::Ctx& c) { switch(t.pick({3, 2, 2, 1, 2})) {
     case 0: c13::Emul<mg::Tria, FEAT::Space::Lagrange1::Element>::run(t, c, "lagrange1"); break;
     case 1: c13::Emul<mg::Tria, FEAT::Space::Lagrange2::Element>::run(t, c, "lagrange2"); break;
     case 2: c13::Emul<mg::Tria, FEAT::Space::CroRavRanTur::Element>::run(t, c, "crorav"); break;
-    default: c13::Emul<mg::Tria, c13::DiscP0>::run(t, c, "discontinuous-p0", false); } }, 192, 3, 60000});
+    case 3: c13::Emul<mg::Tria, c13::DiscP0>::run(t, c, "discontinuous-p0", false); break;
+    default: c13::Emul<mg::Tria, FEAT::Space::Lagrange3::Element>::run(t, c, "lagrange3"); /* several dofs per shared edge */ } }, 192, 3, 60000});
 }
